@@ -38,6 +38,7 @@ pub(crate) mod verif_mutex {
         let mut f1 = ManuallyDrop::new(m.lock());
         let mut f2 = ManuallyDrop::new(m.lock());
         let mut guard: Option<GenericMutexGuard<'_, M, u8>> = None;
+        if (p & P18) != 0 { arm_alloc(); }
 
         let mut alive = [true; K];
         let mut pending = [false; K]; // polled, last poll returned Pending
@@ -142,6 +143,7 @@ pub(crate) mod verif_mutex {
                 }
             }
 
+            oracle!(p, P18, alloc_events() == 0, "C18 mutex: an operation allocated or freed heap memory");
             // ================= oracles after every operation =================
             oracle!(p, P02, m.is_locked() == guard.is_some(), "C02 mutex: is_locked() differs from 'a guard is alive'");
             // woken(i): counter of the waker of the latest poll grew since that poll
@@ -507,6 +509,18 @@ pub(crate) mod verif_mutex {
     #[cfg(kani)]
     mod proofs {
         use super::*;
+        #[kani::proof]
+        #[kani::unwind(3)]
+        fn repoll_panics() {
+            let m = GenericMutex::<NoopLock, u8>::new(0, kani::any());
+            repoll_after_ready(m.lock());
+        }
+        #[kani::proof]
+        #[kani::unwind(6)]
+        #[kani::stub(alloc::alloc::alloc, crate::verif::common::stub_alloc)]
+        #[kani::stub(alloc::alloc::dealloc, crate::verif::common::stub_dealloc)]
+        #[kani::stub(alloc::alloc::realloc, crate::verif::common::stub_realloc)]
+        fn hist_c18_n5() { let _ = hist::<NoopLock, _>(&mut KaniSrc, 2, 5, P18); }
 
         macro_rules! hist_proof {
             ($name:ident, $lock:ty, $n:expr, $p:expr, $cfg:expr, $unw:expr) => {
